@@ -12,6 +12,16 @@ use raqote::*;
 pub struct C17;
 
 /// coordinates are in half grid steps: a polygon vertex (gx, gy) is (2gx, 2gy)
+thread_local! {
+    /// power-of-two exponent applied to every coordinate (path and query point) of the grid
+    /// families: the answer cannot depend on the unit (exact scaling keeps every float exact)
+    static SCALE_EXP: std::cell::Cell<i32> = std::cell::Cell::new(0);
+}
+
+fn unit() -> f32 {
+    0.5 * (2.0f32).powi(SCALE_EXP.with(|s| s.get()))
+}
+
 struct Case {
     ops: Vec<QOp>,
     rule: Rule,
@@ -32,7 +42,7 @@ fn ops_str(ops: &[QOp]) -> String {
 }
 
 fn case_str(c: &Case) -> String {
-    format!("rule={} q={},{} tol={:?} ops={}", if c.rule == Rule::NonZero { "nz" } else { "eo" }, c.q.0, c.q.1, c.tol, ops_str(&c.ops))
+    format!("rule={} q={},{} tol={:?} sc={} ops={}", if c.rule == Rule::NonZero { "nz" } else { "eo" }, c.q.0, c.q.1, c.tol, SCALE_EXP.with(|s| s.get()), ops_str(&c.ops))
 }
 
 /// the raqote path in user units of half a grid step (coordinates = integer / 2)
@@ -40,8 +50,8 @@ fn user_path(ops: &[QOp], rule: Rule) -> Path {
     let mut pb = PathBuilder::new();
     for o in ops {
         match *o {
-            QOp::M(x, y) => pb.move_to(x as f32 * 0.5, y as f32 * 0.5),
-            QOp::L(x, y) => pb.line_to(x as f32 * 0.5, y as f32 * 0.5),
+            QOp::M(x, y) => pb.move_to(x as f32 * unit(), y as f32 * unit()),
+            QOp::L(x, y) => pb.line_to(x as f32 * unit(), y as f32 * unit()),
             QOp::Z => pb.close(),
         }
     }
@@ -69,7 +79,7 @@ fn eval_point(c: &Case, path: &Path, segs: &[(P, P)]) -> Result<Option<bool>, Vi
         Some(e) => e,
         None => return Ok(None),
     };
-    let (x, y) = (c.q.0 as f32 * 0.5, c.q.1 as f32 * 0.5);
+    let (x, y) = (c.q.0 as f32 * unit(), c.q.1 as f32 * unit());
     let got = match guard(|| path.contains_point(c.tol, x, y)) {
         Ok(g) => g,
         Err(p) => return Err(Violation::new("contains_point/panic", case_str(c), format!("panicked: {}", p))),
@@ -467,6 +477,27 @@ impl Check for C17 {
                 }
             });
         }
+        // the same grid polygons in units 2^-12, 2^-20 and 2^11 times the usual one (every float
+        // stays exact, so the exact model applies unchanged; tolerance scaled along)
+        for exp in [-12i32, -20, 11] {
+            let np = g3.len();
+            run.bound(&format!("units scaled by 2^{}", exp), format!("triangles and closed quadrilaterals over the 3x3 grid x 2 rules x {} query points", qs.len()));
+            run.par(np * np, |s, l| {
+                SCALE_EXP.with(|e| e.set(exp));
+                for k in 0..np {
+                    for k2 in 0..=np {
+                        let mut ops = vec![QOp::M(g3[s / np].0, g3[s / np].1), QOp::L(g3[s % np].0, g3[s % np].1), QOp::L(g3[k].0, g3[k].1)];
+                        if k2 < np {
+                            ops.push(QOp::L(g3[k2].0, g3[k2].1));
+                            ops.push(QOp::Z);
+                        }
+                        l.states += 1;
+                        eval_path_tol(run, 75_000 + s, l, &ops, &qs, false, 0.1 * (2.0f32).powi(exp));
+                    }
+                }
+                SCALE_EXP.with(|e| e.set(0));
+            });
+        }
         // curved paths at several tolerances
         {
             use crate::scene::{POp, PathSpec};
@@ -535,6 +566,7 @@ impl Check for C17 {
             return Ok(fill_agreement(&ops, rule).err());
         }
         let qv = kv_list(&m, "q")?;
+        SCALE_EXP.with(|s| s.set(m.get("sc").and_then(|v| v.parse::<i32>().ok()).unwrap_or(0)));
         let tol = match m.get("tol") {
             Some(t) => t.parse::<f32>().map_err(|e| e.to_string())?,
             None => 0.1,
